@@ -8,7 +8,10 @@ under permuted includes).
 Tie: (1) translators/gen_order.py re-reads every sorted()/for/set iteration of the sources;
 (2) correspondence of the model with the REAL code: str ordering, sorted(set(..)), Include
 ordering, Node.get_main_position, the writer's sibling order on live namespaces, the tag
-namespace (Transformer.parse), parse_comment_blocks, _parse_include / type resolution.
+namespace (Transformer.parse), parse_comment_blocks, _parse_include / type resolution, the
+fixed-point loop of IntrospectablePass.validate on namespaces in declared, shuffled and
+reversed declaration order (C16_fixpoint_walk_order: which nodes are introspectable="0" does
+not depend on the order of the walk).
 
 What a theorem cannot reach — determinism ACROSS interpreter runs, hash seeds and cache
 histories — is VALIDATED metamorphically on the real pipeline: the same generated input is
@@ -18,6 +21,16 @@ top-level declarations, and with dependency GIRs parsed afresh vs loaded from a 
 CacheStore (also a cache written by a process with another hash seed); the emitted GIR is
 compared byte for byte.  Independently an oracle written from the statement checks on every
 output that sibling order is a function of names and kinds.
+
+Whole-declaration shuffles: judged byte for byte when every typedef name is still declared before
+its uses ('decls'; struct tags may be used before their definition, the typedefs of one tag keep
+their order).  An order that uses a typedef name before its typedef ('decls-any', e.g. an alias
+before the alias it points to) is a symbol stream no C front end delivers -- scannerlexer.l
+returns an identifier as TYPEDEF_NAME only after its typedef, an earlier use is a syntax error
+and the declaration is dropped -- so the statement oracle judges only the sibling order there
+and counts content differences as outside the quantifier.  Those orders are still covered on
+the proof side: the model of the fixed-point loop is compared with the real pass on exactly
+such orders (c16.fixpoint), so a loop that stops too early breaks the tie.
 """
 import concurrent.futures
 import copy
@@ -1934,7 +1947,8 @@ def run(ctx):
         'rule': 'correspondence streams (model vs real code): random string pairs, sorted(set(list)), Include sets, position '
                 'sets for get_main_position, typedef/struct symbol sequences through Transformer.parse, comment block lists '
                 'through parse_comment_blocks, generated include DAGs through _parse_include/_resolve_type_from_ctype, live '
-                'namespaces through GIRWriter. Metamorphic stream (validated, not proved): corpus + seeded inputs (compounds '
+                'namespaces through GIRWriter, the loop of IntrospectablePass.validate (start flags and fixed type answers '
+                'read off the real objects) on namespaces in declared / shuffled / reversed declaration order. Metamorphic stream (validated, not proved): corpus + seeded inputs (compounds '
                 'in all typedef/struct orders incl. tags seen at several positions, two typedefs of a tag, methods/ctors/'
                 'functions, enums, aliases, constants, callbacks, classes and interfaces with properties/signals/interfaces '
                 'from a dump, comment blocks in several files, dependency GIR DAGs, a dependency GIR with a node of every '
